@@ -209,7 +209,7 @@ func (c *monC07) End(m *Machine) *Violation { return nil }
 
 var kindsC07 = []wk{
 	{"login", 18}, {"newsess", 16}, {"visit", 22}, {"steal", 8}, {"setcookie", 10}, {"logout", 5}, {"updpw", 3},
-	{"snip:remember", 12}, {"snip:recover", 4}, {"snip:oauth", 8}, {"o2start", 2}, {"o2cb", 3}, {"get", 2}, {"dropcookie", 1},
+	{"snip:remember", 12}, {"snip:recover", 4}, {"snip:oauth", 8}, {"snip:o2stale", 5}, {"o2start", 2}, {"o2cb", 3}, {"get", 2}, {"dropcookie", 1},
 }
 
 var hostilePIDs = []string{"a;b@x.io", "semi;;colon@x.io", ";lead@x.io", "trail@x.io;", "oauth2;x@x.io", "plain@x.io", "unié@x.io", "x@y.io"}
